@@ -874,7 +874,7 @@ def o_C11(I):
     outstanding = {}
     sids = set()
     for e in I.events:
-        if e['kind'] == 'panic':
+        if e['kind'] == 'panic' and e['cls'] != 'assert-subid':      # (the documented assertion is judged by o_generic)
             out.append((I.name, e['seg'], f"panic {e['task']} {e['cls']}"))
         if e['kind'] == 'w' and e['pkt'] and not (e['pkt']['type'] == 3 and e['pkt'].get('dup')):
             p = e['pkt']
